@@ -4,9 +4,11 @@ package sample
 
 import (
 	"fmt"
+	"runtime"
 	"sort"
 	"strings"
 	"sync"
+	"sync/atomic"
 	"testing"
 	"time"
 
@@ -66,13 +68,75 @@ type c13Peers struct {
 	callbacks []func()
 	fileStyle bool // FilePeers: RegisterUpdatedPeersCallback invokes the callback immediately
 	inflight  sync.WaitGroup
+	running   atomic.Int64 // callback goroutines not yet finished
 	fired     int
+
+	// parking: the parkAt-th GetPeers call from arming returns only after release is
+	// closed; it takes its snapshot first and does not hold mu while parked.
+	parkAt  int
+	parked  chan struct{}
+	release chan struct{}
+}
+
+// arm makes the nth GetPeers call from now park after taking its snapshot.
+func (p *c13Peers) arm(nth int) (parked <-chan struct{}, release chan struct{}) {
+	p.mu.Lock()
+	defer p.mu.Unlock()
+	p.parkAt, p.parked, p.release = nth, make(chan struct{}), make(chan struct{})
+	return p.parked, p.release
+}
+
+func (p *c13Peers) disarm() {
+	p.mu.Lock()
+	p.parkAt = 0
+	p.mu.Unlock()
 }
 
 func (p *c13Peers) GetPeers() ([]string, error) {
 	p.mu.Lock()
-	defer p.mu.Unlock()
-	return append([]string(nil), p.list...), nil
+	snap := append([]string(nil), p.list...)
+	var wait chan struct{}
+	if p.parkAt > 0 {
+		p.parkAt--
+		if p.parkAt == 0 {
+			wait = p.release
+			close(p.parked)
+		}
+	}
+	p.mu.Unlock()
+	if wait != nil {
+		<-wait
+	}
+	return snap, nil
+}
+
+// c13RunCallback is the body of one callback goroutine (named so that it can be found
+// in a goroutine dump).
+func c13RunCallback(p *c13Peers, cb func()) {
+	defer p.inflight.Done()
+	defer p.running.Add(-1)
+	cb()
+}
+
+var c13stackBuf = make([]byte, 1<<20) // parked steps run one at a time
+
+// c13CallbacksBlockedOnFactory: every unfinished callback goroutine is waiting for a
+// sync.Mutex inside SamplerFactory.updatePeerCounts itself (not inside GetPeers).
+func c13CallbacksBlockedOnFactory() bool {
+	buf := c13stackBuf[:runtime.Stack(c13stackBuf, true)]
+	found := false
+	for _, g := range strings.Split(string(buf), "\n\n") {
+		if !strings.Contains(g, "sample.c13RunCallback") {
+			continue
+		}
+		found = true
+		head, _, _ := strings.Cut(g, "\n")
+		if !(strings.Contains(head, "sync.Mutex.Lock") || strings.Contains(head, "semacquire")) ||
+			!strings.Contains(g, "updatePeerCounts") || strings.Contains(g, "c13Peers).GetPeers") {
+			return false
+		}
+	}
+	return found
 }
 func (p *c13Peers) GetInstanceID() (string, error) { return "self", nil }
 func (p *c13Peers) RegisterUpdatedPeersCallback(cb func()) {
@@ -102,10 +166,8 @@ func (p *c13Peers) set(list []string) {
 	}
 	for _, cb := range cbs {
 		p.inflight.Add(1)
-		go func() {
-			defer p.inflight.Done()
-			cb()
-		}()
+		p.running.Add(1)
+		go c13RunCallback(p, cb)
 	}
 }
 
@@ -311,6 +373,7 @@ type c13step struct {
 	W     int    `json:"worker,omitempty"`
 	Env   string `json:"env,omitempty"`
 	Late  bool   `json:"after_reload,omitempty"`
+	Nth   int    `json:"parked_getpeers_call,omitempty"`
 }
 
 type c13witness struct {
@@ -327,14 +390,92 @@ type c13witness struct {
 	SharedWith []string   `json:"dynsampler_also_behind,omitempty"`
 }
 
+// c13parkedCreation: one worker lazily creates a sampler; the nth GetPeers call made by
+// that creation is parked after it took its snapshot; the driver changes the membership
+// and lets the callbacks run until they have finished or are blocked on the factory
+// mutex (held by the creation in the unchanged code); then the parked call is released
+// and everything is joined. Time is only used to bound the detection of those states.
+func c13parkedCreation(run *verifkit.Run, rng *verifkit.Rand, batch int, peers *c13Peers, factory *SamplerFactory,
+	file *c13file, caches []map[string]Sampler, history *[]c13step, kinds *strings.Builder) {
+	// a (worker, environment) whose sampler does not exist yet on that worker
+	type cand struct {
+		w   int
+		env *c13env
+	}
+	var cands []cand
+	for w := range caches {
+		for _, e := range file.Envs {
+			if _, ok := caches[w][e.Name]; !ok {
+				cands = append(cands, cand{w, e})
+			}
+		}
+	}
+	if len(cands) == 0 {
+		run.Count("parked_steps_skipped_everything_cached", 1)
+		return
+	}
+	c := cands[rng.Intn(len(cands))]
+	// the creation calls GetPeers once per sampler it creates: downstream ones first, the
+	// top-level (or rules) sampler last
+	calls := 1 + len(c.env.Rules)
+	nth := calls
+	if rng.Chance(0.3) {
+		nth = rng.Range(1, calls)
+	}
+	cur, _ := peers.GetPeers()
+	n := len(cur)
+	for n == len(cur) {
+		n = verifkit.Pick(rng, 1, 2, 3, 4, 5, 7, 12)
+	}
+	*history = append(*history, c13step{Batch: batch, Op: "get-with-parked-GetPeers", W: c.w, Env: c.env.Name, N: n, Nth: nth})
+	fmt.Fprintf(kinds, "K%d/%d;", nth, calls)
+
+	parked, release := peers.arm(nth)
+	done := make(chan struct{})
+	go func() {
+		defer close(done)
+		caches[c.w][c.env.Name] = factory.GetSamplerImplementationForKey(c.env.Name)
+	}()
+	select {
+	case <-parked:
+	case <-done:
+		peers.disarm()
+		run.Count("parked_steps_creation_made_fewer_GetPeers_calls", 1)
+		return
+	case <-time.After(30 * time.Second):
+		peers.disarm()
+		close(release)
+		<-done
+		run.Inconclusive("parked creation: GetPeers call not reached within the bound")
+		return
+	}
+	peers.set(c13PeerList(rng, n))
+	state := "undetermined"
+	for deadline := time.Now().Add(10 * time.Second); time.Now().Before(deadline); {
+		if peers.running.Load() == 0 {
+			state = "callbacks_finished_before_release"
+			break
+		}
+		if c13CallbacksBlockedOnFactory() {
+			state = "callbacks_blocked_on_factory_mutex"
+			break
+		}
+		time.Sleep(100 * time.Microsecond) // pacing of the poll only
+	}
+	run.Count("parked_steps_"+state, 1)
+	close(release)
+	<-done
+	peers.inflight.Wait()
+}
+
 func TestVerif_C13(t *testing.T) {
 	run := verifkit.Start(t, "C13", "sample")
 	defer run.Finish()
-	run.Rule("each case = a rules file with 2-4 environments of throughput samplers (Total/EMA/Windowed; top-level and downstream of rules; with and without UseClusterSize, incl. same-environment twins differing only in UseClusterSize; goals 1..12345) and a history of 6-20 batches; a batch runs concurrently: peer-list changes (1..12 peers, same-size replacements) delivered by `go callback()`, lazy sampler creation on 1-8 goroutine workers with own caches, optionally a reload (new goals / UseClusterSize flipped) racing them; after each batch everything is joined and every throughput sampler held by a worker is compared with the model; non-trivial = a sampler with UseClusterSize was checked with >1 peers after at least one peer change; distinct = abstract batch-kind history")
+	run.Rule("each case = a rules file with 2-4 environments of throughput samplers (Total/EMA/Windowed; top-level and downstream of rules; with and without UseClusterSize, incl. same-environment twins differing only in UseClusterSize; goals 1..12345) and a history of 6-20 batches; a batch runs concurrently: peer-list changes (1..12 peers, same-size replacements) delivered by `go callback()`, lazy sampler creation on 1-8 goroutine workers with own caches, optionally a reload (new goals / UseClusterSize flipped) racing them; after 15% of batches one extra lazy creation runs whose nth GetPeers call is parked (scripted peers) after taking its snapshot while a membership change is made and its callbacks finish or block on the factory mutex, then released; after each batch / parked step everything is joined and every throughput sampler held by a worker is compared with the model; non-trivial = a sampler with UseClusterSize was checked with >1 peers after at least one peer change; distinct = abstract batch-kind history")
 	run.Assume("every writer of a live dynsampler's GoalThroughputPerSec holds SamplerFactory.mutex (updatePeerCounts, getSharedDynsamplerAndRecorder), so reading it under that mutex at a joined point is race-free")
 	run.Assume("peer.Peers implementations invoke registered callbacks on membership change, in new goroutines, and GetPeers returns the current non-empty list without error")
 
-	run.Cases("histories", run.N(120, 4000), func(i int, rng *verifkit.Rand) { c13case(run, rng, i < 2) })
+	run.Cases("histories", run.N(100, 3500), func(i int, rng *verifkit.Rand) { c13case(run, rng, i < 2) })
 }
 
 func c13case(run *verifkit.Run, rng *verifkit.Rand, sample bool) {
@@ -362,6 +503,94 @@ func c13case(run *verifkit.Run, rng *verifkit.Rand, sample bool) {
 	var kinds strings.Builder
 	changedOnce := false
 	interesting := false
+
+	// verify: quiescent point, compare every live throughput sampler with the model
+	verify := func() {
+		cur, _ := peers.GetPeers()
+		npeers := len(cur)
+		type live struct {
+			w    int
+			env  string
+			rule int
+			def  *c13def
+			goal float64
+			id   any
+		}
+		var lives []live
+		for w := range caches {
+			names := make([]string, 0, len(caches[w]))
+			for n := range caches[w] {
+				names = append(names, n)
+			}
+			sort.Strings(names)
+			for _, n := range names {
+				e := file.env(n)
+				if e == nil {
+					continue // __default__ deterministic
+				}
+				s := caches[w][n]
+				if e.Top != nil {
+					if g, id, ok := c13Goal(factory, s); ok {
+						lives = append(lives, live{w, n, -1, e.Top, g, id})
+					} else if e.Top.Kind != "dynamic" {
+						run.Violation("C13/harness/sampler-type-unexpected", fmt.Sprintf("%T for a %s definition", s, e.Top.Kind), history)
+					}
+					continue
+				}
+				for r, d := range e.Rules {
+					ds := c13Downstream(s, file.rules[n][r])
+					if g, id, ok := c13Goal(factory, ds); ok {
+						lives = append(lives, live{w, n, r, d, g, id})
+					} else if d.Kind != "dynamic" {
+						run.Violation("C13/harness/sampler-type-unexpected", fmt.Sprintf("%T for a %s definition", ds, d.Kind), history)
+					}
+				}
+			}
+		}
+		for _, l := range lives {
+			want := l.def.expected(npeers)
+			run.Count("goals_checked", 1)
+			if l.def.UseClusterSize {
+				run.Count("goals_checked_with_cluster_size", 1)
+				if npeers > 1 && changedOnce {
+					interesting = true
+				}
+			}
+			if l.goal == want {
+				continue
+			}
+			// diagnose: is the dynsampler also behind a definition with the other UseClusterSize?
+			var sharedWith []string
+			otherMode := false
+			for _, o := range lives {
+				if o.id == l.id && (o.env != l.env || o.rule != l.rule) {
+					sharedWith = append(sharedWith, fmt.Sprintf("%s/rule%d(UseClusterSize=%v)", o.env, o.rule, o.def.UseClusterSize))
+					if o.def.UseClusterSize != l.def.UseClusterSize {
+						otherMode = true
+					}
+				}
+			}
+			wit := &c13witness{PeerStyle: style, Files: files, History: history, Peers: npeers, Worker: l.w, Env: l.env, Rule: l.rule,
+				Def: l.def, Got: l.goal, Want: want, SharedWith: sharedWith}
+			switch {
+			case !l.def.UseClusterSize && otherMode:
+				run.Violation("C13/fixed-goal-scaled/dynsampler-shared-with-UseClusterSize-definition",
+					fmt.Sprintf("%s without UseClusterSize, goal %d, runs with goal %v at %d peers: its dynsampler is also used by a definition with UseClusterSize", l.def.Kind, l.def.Goal, l.goal, npeers), wit)
+			case l.def.UseClusterSize && otherMode:
+				run.Violation("C13/cluster-goal-wrong/dynsampler-shared-with-fixed-goal-definition",
+					fmt.Sprintf("%s with UseClusterSize, goal %d, runs with goal %v at %d peers (want %v): its dynsampler is also used by a definition without UseClusterSize", l.def.Kind, l.def.Goal, l.goal, npeers, want), wit)
+			case !l.def.UseClusterSize && c13wasClusterSized(files[:len(files)-1], l.env, l.rule >= 0, l.def):
+				run.Violation("C13/fixed-goal-scaled/UseClusterSize-switched-off-by-reload",
+					fmt.Sprintf("%s without UseClusterSize, goal %d, runs with goal %v at %d peers: before a reload the same definition had UseClusterSize", l.def.Kind, l.def.Goal, l.goal, npeers), wit)
+			case l.def.UseClusterSize:
+				run.Violation("C13/cluster-goal-wrong/"+l.def.Kind,
+					fmt.Sprintf("%s with UseClusterSize, goal %d, runs with goal %v at %d peers, want %v", l.def.Kind, l.def.Goal, l.goal, npeers, want), wit)
+			default:
+				run.Violation("C13/fixed-goal-wrong/"+l.def.Kind,
+					fmt.Sprintf("%s without UseClusterSize, goal %d, runs with goal %v at %d peers", l.def.Kind, l.def.Goal, l.goal, npeers), wit)
+			}
+		}
+	}
 
 	batches := rng.Range(6, 20)
 	for b := 0; b < batches; b++ {
@@ -451,90 +680,12 @@ func c13case(run *verifkit.Run, rng *verifkit.Rand, sample bool) {
 			changedOnce = true
 		}
 
-		// ---- quiescent: compare with the model
-		cur, _ := peers.GetPeers()
-		npeers := len(cur)
-		type live struct {
-			w    int
-			env  string
-			rule int
-			def  *c13def
-			goal float64
-			id   any
-		}
-		var lives []live
-		for w := range caches {
-			names := make([]string, 0, len(caches[w]))
-			for n := range caches[w] {
-				names = append(names, n)
-			}
-			sort.Strings(names)
-			for _, n := range names {
-				e := file.env(n)
-				if e == nil {
-					continue // __default__ deterministic
-				}
-				s := caches[w][n]
-				if e.Top != nil {
-					if g, id, ok := c13Goal(factory, s); ok {
-						lives = append(lives, live{w, n, -1, e.Top, g, id})
-					} else if e.Top.Kind != "dynamic" {
-						run.Violation("C13/harness/sampler-type-unexpected", fmt.Sprintf("%T for a %s definition", s, e.Top.Kind), history)
-					}
-					continue
-				}
-				for r, d := range e.Rules {
-					ds := c13Downstream(s, file.rules[n][r])
-					if g, id, ok := c13Goal(factory, ds); ok {
-						lives = append(lives, live{w, n, r, d, g, id})
-					} else if d.Kind != "dynamic" {
-						run.Violation("C13/harness/sampler-type-unexpected", fmt.Sprintf("%T for a %s definition", ds, d.Kind), history)
-					}
-				}
-			}
-		}
-		for _, l := range lives {
-			want := l.def.expected(npeers)
-			run.Count("goals_checked", 1)
-			if l.def.UseClusterSize {
-				run.Count("goals_checked_with_cluster_size", 1)
-				if npeers > 1 && changedOnce {
-					interesting = true
-				}
-			}
-			if l.goal == want {
-				continue
-			}
-			// diagnose: is the dynsampler also behind a definition with the other UseClusterSize?
-			var sharedWith []string
-			otherMode := false
-			for _, o := range lives {
-				if o.id == l.id && (o.env != l.env || o.rule != l.rule) {
-					sharedWith = append(sharedWith, fmt.Sprintf("%s/rule%d(UseClusterSize=%v)", o.env, o.rule, o.def.UseClusterSize))
-					if o.def.UseClusterSize != l.def.UseClusterSize {
-						otherMode = true
-					}
-				}
-			}
-			wit := &c13witness{PeerStyle: style, Files: files, History: history, Peers: npeers, Worker: l.w, Env: l.env, Rule: l.rule,
-				Def: l.def, Got: l.goal, Want: want, SharedWith: sharedWith}
-			switch {
-			case !l.def.UseClusterSize && otherMode:
-				run.Violation("C13/fixed-goal-scaled/dynsampler-shared-with-UseClusterSize-definition",
-					fmt.Sprintf("%s without UseClusterSize, goal %d, runs with goal %v at %d peers: its dynsampler is also used by a definition with UseClusterSize", l.def.Kind, l.def.Goal, l.goal, npeers), wit)
-			case l.def.UseClusterSize && otherMode:
-				run.Violation("C13/cluster-goal-wrong/dynsampler-shared-with-fixed-goal-definition",
-					fmt.Sprintf("%s with UseClusterSize, goal %d, runs with goal %v at %d peers (want %v): its dynsampler is also used by a definition without UseClusterSize", l.def.Kind, l.def.Goal, l.goal, npeers, want), wit)
-			case !l.def.UseClusterSize && c13wasClusterSized(files[:len(files)-1], l.env, l.rule >= 0, l.def):
-				run.Violation("C13/fixed-goal-scaled/UseClusterSize-switched-off-by-reload",
-					fmt.Sprintf("%s without UseClusterSize, goal %d, runs with goal %v at %d peers: before a reload the same definition had UseClusterSize", l.def.Kind, l.def.Goal, l.goal, npeers), wit)
-			case l.def.UseClusterSize:
-				run.Violation("C13/cluster-goal-wrong/"+l.def.Kind,
-					fmt.Sprintf("%s with UseClusterSize, goal %d, runs with goal %v at %d peers, want %v", l.def.Kind, l.def.Goal, l.goal, npeers, want), wit)
-			default:
-				run.Violation("C13/fixed-goal-wrong/"+l.def.Kind,
-					fmt.Sprintf("%s without UseClusterSize, goal %d, runs with goal %v at %d peers", l.def.Kind, l.def.Goal, l.goal, npeers), wit)
-			}
+		verify()
+
+		if rng.Chance(0.15) {
+			c13parkedCreation(run, rng, b, peers, factory, file, caches, &history, &kinds)
+			changedOnce = true
+			verify()
 		}
 	}
 	run.Count("batches", int64(batches))
